@@ -12,6 +12,9 @@ namespace Pike
 namespace C05
 open Resp Str
 
+/-- Obligation on the extracted facts: pike's own code uses no `sync.Pool` — bodies and headers of a stored response are values: what one client was sent or what the entry holds is not a view of a buffer that a later compression or decompression reuses (the models treat them as immutable values). -/
+theorem facts_no_pooled_buffers : Facts.syncPoolSites = [] := by decide
+
 /-- Obligation on the regenerated statement skeletons of `GetRawBody`, `Compress` and `Fill`: they are what `Resp.rawBody`, `Resp.compressStore` and `Resp.fill` transcribe (identity body from the gzip, else br variant; both variants made and the raw body dropped when stored; headers merged, then Content-Encoding set). -/
 theorem skeleton_transcribed :
     Facts.skel_HTTPResponse_GetRawBody = Spec.Skeleton.HTTPResponse_GetRawBody
